@@ -94,10 +94,13 @@ def model(ctx, n):
 
 
 # ------------------------------------------------------------------------------------------------ harness runs
-def run_sched(binp, args, timeout):
+def run_sched(binp, args, timeout, godebug=None):
     t0 = time.time()
+    env = {"GORACE": "halt_on_error=0 exitcode=66"}
+    if godebug:
+        env["GODEBUG"] = godebug
     try:
-        p = subprocess.run([binp] + args, env=core.goenv({"GORACE": "halt_on_error=0 exitcode=66"}), stdout=subprocess.PIPE,
+        p = subprocess.run([binp] + args, env=core.goenv(env), stdout=subprocess.PIPE,
                            stderr=subprocess.PIPE, timeout=timeout, text=True, errors="replace")
     except subprocess.TimeoutExpired:
         raise core.Infra("sched %s did not finish within %ds (harness watchdog; not a verdict)" % (" ".join(args), timeout))
@@ -453,6 +456,35 @@ def run(ctx):
                     if not any(f["idx"] in by_t for f in ctx.fails):
                         raise core.Infra("vacuity: site %s of %s was initialised in %d and contended in %d of %d trials (stale hook or harness?)"
                                          % (st, k, v["inits"], v["contended"], s["trials"]))
+
+    # ---- the objects whose implementation depends on the CPU tier (cipher.NewGCM returns a different AEAD type per tier),
+    #      raced again under the other tiers; failures are harvested exactly as above
+    TIERS = {"sm4.AEAD": ["cpu.pclmulqdq=off", "cpu.aes=off", "cpu.avx2=off"], "sm4.Block": ["cpu.aes=off", "cpu.avx2=off"],
+             "sm3.New": ["cpu.avx2=off,cpu.avx=off"]}
+    tier_jobs = [(k, gd) for k, gds in TIERS.items() for gd in gds]
+
+    def tier_one(job):
+        k, gd = job
+        out = os.path.join(ctx.scratch, "ev-%s-%s.ndjson" % (core._safe(k), core._safe(gd)))
+        nt = max(40, trials[k] // 3)
+        args = ["-kinds", k, "-n", str(n), "-trials", str(nt), "-grace", str(grace), "-seed", str(ctx.seed), "-t0", str(5000000 + 100000 * tier_jobs.index(job)),
+                "-out", out, "-par", "4", "-watchdog", "120"]
+        rc, sums, stderr, wall = run_sched(binp, args, 1200 if quick else 3000, godebug=gd)
+        return k, gd, out, rc, sums, stderr, wall, nt
+    with concurrent.futures.ThreadPoolExecutor(max_workers=3) as ex:
+        tres = list(ex.map(tier_one, tier_jobs))
+    tier_stats = {}
+    for k, gd, out, rc, sums, stderr, wall, nt in tres:
+        by_t, order = load_events(out)
+        fl = harvest(ctx, k, rc, sums, stderr, by_t)
+        for f in fl:
+            f["cfg"] = gd
+            f["cfgspec"] = dict(f.get("cfgspec") or {}, label=gd, env={"GODEBUG": gd})
+        ctx.fails += fl
+        for sm in sums:
+            tier_stats["%s @ %s" % (k, gd)] = {"trials": sm["trials"], "calls": sm["calls"], "results_compared": sm["compared"], "wall_s": round(wall, 1)}
+            tot["trials"] += sm["trials"]; tot["calls"] += sm["calls"]; tot["compared"] += sm["compared"]
+    ctx.extra["dispatch_tier_runs"] = tier_stats
 
     # ---- recorded events -> Trace_LazyInit
     nshards = 4 if quick else 8
